@@ -260,8 +260,9 @@ def accepted_bytes(loop: Dict[str, Any]) -> Optional[int]:
         t = loop["while_test"]
         if t[0] == "op" and t[1] == "<" and t[2] == N(loop["var"]) and t[3][0] == "c":
             bounds.append(t[3][1])
-        else:
+        elif N(loop["var"]) in list(walk(t)):
             return None
+        # a test about something else (e.g. `pos < end`) is another way out of the loop, not a bound on the shift
     if not bounds:
         return None
     k = min(bounds)
@@ -497,6 +498,156 @@ def rule_N2(ctx, rule: str = "N2") -> None:
                         "an over-long varint is silently truncated", "decode_varint(b'\\x80' * 11, 0)")
 
 
+def _cont_clear(val: Dict[Sym, bool]) -> Optional[bool]:
+    """did the path see a byte whose continuation bit (0x80) is clear?  None when no such test was decided"""
+    res = None
+    for k, v in val.items():
+        t, want = k, v
+        if t[0] == "op" and t[1] == "==" and len(t) == 4 and t[3][0] == "c" and t[3][1] in (0, 0x80) and t[2][0] == "op" and t[2][1] == "&" and C(0x80) in t[2][2:]:
+            clear = (v if t[3][1] == 0 else not v)
+            res = clear if res is None else (res or clear)
+        elif t[0] == "op" and t[1] == "&" and C(0x80) in t[2:]:
+            clear = not v
+            res = clear if res is None else (res or clear)
+        elif t[0] == "op" and t[1] == "<" and len(t) == 4 and t[3] == C(0x80) and t[2][0] != "c":
+            clear = v                       # b < 0x80
+            res = clear if res is None else (res or clear)
+    return res
+
+
+def _infinite_loop(e) -> bool:
+    d = e.data
+    if isinstance(d, tuple) and d and d[0] == "call" and dotted(d[1]).split(".")[-1] == "count":
+        return True
+    return isinstance(d, tuple) and len(d) == 2 and d[0] in ("while", "while!") and d[1] == C(True)
+
+
+def rule_N7(ctx, rule: str = "N7") -> None:
+    """the varint readers as siblings.  load_varint reads from a stream; decode_varint either delegates to it or scans the
+    buffer itself.  Whichever way: (a) at most 10 bytes are accepted - by both; (b) a normal return happens only after a byte
+    with a clear continuation bit was seen (input that ends inside a varint raises EOFError); (c) decode_varint's new
+    position is the old one plus the bytes consumed; (d) the raw bytes load_varint returns cover every byte that went into
+    the value (also a first byte handed in by the caller)."""
+    mod = ctx.repo.mod(M_INIT)
+    lv = mod.func("load_varint")
+    dv = mod.func("decode_varint")
+    ctx.analysed("load_varint", "decode_varint")
+    own_loop = any(isinstance(n, (ast.For, ast.While)) for n in ast.walk(dv))
+    delegates = any(isinstance(c, ast.Call) and ast.unparse(c.func) == "load_varint" for c in ast.walk(dv))
+    # (a) bound of decode_varint's own loop
+    if own_loop:
+        lp = _load_loop(mod, dv)
+        n = accepted_bytes(lp)
+        if n is None:
+            ctx.inconclusive(rule, "decode_varint:bound", "loop bound not derivable (no recognised guard on the shift)", mod.loc(dv))
+        elif n != SPEC_MAXLEN:
+            ctx.refuted(rule, "decode_varint:bound", f"accepts={n}", mod.loc(dv),
+                        f"decode_varint (packed elements, nested messages, map entries) accepts up to {n} bytes per varint while 64-bit varints take up to {SPEC_MAXLEN}: "
+                        + ("a ten-byte element (any negative int32/int64/enum, large uint64) of a packed field is rejected" if n < SPEC_MAXLEN else "over-long input is accepted"),
+                        "M(xs=[-1]) round trip for a packed repeated int32")
+        else:
+            ctx.proved(rule, "decode_varint:bound", mod.loc(dv), f"{n} iterations reach the read")
+        if lp.get("step") not in (None, SPEC_GROUP) or lp.get("start") not in (None, 0):
+            ctx.refuted(rule, "decode_varint:shift-step", f"start={lp.get('start')} step={lp.get('step')}", mod.loc(dv), "decoder shift must start at 0 and advance by 7")
+        elif lp.get("step") == SPEC_GROUP:
+            ctx.proved(rule, "decode_varint:shift-step", mod.loc(dv))
+        masks = set()
+        for nd in ast.walk(dv):
+            if isinstance(nd, ast.BinOp) and isinstance(nd.op, ast.BitAnd):
+                for side in (nd.left, nd.right):
+                    try:
+                        masks.add(fold(side, mod.consts))
+                    except _Unfoldable:
+                        pass
+        if masks == {0x7F, 0x80}:
+            ctx.proved(rule, "decode_varint:mask/continuation", mod.loc(dv))
+        else:
+            ctx.refuted(rule, "decode_varint:mask/continuation", f"and-constants={sorted(masks)}", mod.loc(dv), f"decode_varint masks with {sorted(masks)}; payload mask 0x7F and continuation 0x80 expected")
+    elif delegates:
+        ctx.proved(rule, "decode_varint:bound", mod.loc(dv), "delegates to load_varint")
+    else:
+        ctx.inconclusive(rule, "decode_varint:bound", "neither a loop of its own nor a call of load_varint", mod.loc(dv))
+    # (b) no normal return without a terminating byte
+    for q, fn in (("load_varint", lv), ("decode_varint", dv)):
+        if q == "decode_varint" and not own_loop:
+            continue
+        paths = Interp(mod, fork_while=True, fork_ifexp=True).run(fn)
+        ctx.count(len(paths))
+        bad = None
+        n_ret = 0
+        for p in paths:
+            if p.outcome == "raise":
+                continue
+            loops_ = [e for e in p.events if e.kind == "loop"]
+            left_by = any(e.kind in ("break", "return") and e.loops for e in p.events) or any(e.kind == "break" for e in p.events)
+            if loops_ and all(_infinite_loop(e) for e in loops_) and not left_by and p.outcome == "fall":
+                continue          # falling out of an endless loop is not a path of the program
+            n_ret += 1
+            if _cont_clear(p.valuation) is not True:
+                bad = bad or p
+        name = f"{q}:returns-only-after-terminator"
+        if not n_ret:
+            ctx.inconclusive(rule, name, "no returning path", mod.loc(fn))
+        elif bad is not None:
+            ctx.refuted(rule, name, ";".join(f"{show(k)}={v}" for k, v in list(bad.valuation.items())[:4])[:120], mod.loc(fn),
+                        f"{q} can return normally on a path that has not seen a byte with a clear continuation bit ({ {show(k): v for k, v in bad.valuation.items()} }): input that ends in the "
+                        "middle of a varint yields a partial value instead of EOFError", "decode_varint(b'\\x80', 0) / M().parse(b'\\x08\\xac')")
+        else:
+            ctx.proved(rule, name, mod.loc(fn), f"{n_ret} returning paths")
+    # (c) position of a self-scanning decode_varint
+    if own_loop:
+        pos = dv.args.args[1].arg
+        buf = dv.args.args[0].arg
+        loop = next(n for n in ast.walk(dv) if isinstance(n, (ast.For, ast.While)))
+        reads = [n for st in loop.body for n in ast.walk(st) if isinstance(n, ast.Subscript) and isinstance(n.value, ast.Name) and n.value.id == buf and isinstance(n.ctx, ast.Load)]
+        incs = [st for st in loop.body if isinstance(st, ast.AugAssign) and isinstance(st.target, ast.Name) and st.target.id == pos and isinstance(st.op, ast.Add)
+                and isinstance(st.value, ast.Constant) and st.value.value == 1]
+        incs_all = [n for n in ast.walk(dv) if isinstance(n, (ast.AugAssign, ast.Assign)) and pos in {x.id for t in (n.targets if isinstance(n, ast.Assign) else [n.target]) for x in ast.walk(t) if isinstance(x, ast.Name)}]
+        rets = [n for n in ast.walk(dv) if isinstance(n, ast.Return) and n.value is not None]
+        ret_ok = bool(rets) and all(isinstance(r.value, ast.Tuple) and len(r.value.elts) == 2 and isinstance(r.value.elts[1], ast.Name) and r.value.elts[1].id == pos for r in rets)
+        direct_reads = [n for st in loop.body if not isinstance(st, (ast.If, ast.For, ast.While, ast.Try)) for n in ast.walk(st)
+                        if isinstance(n, ast.Subscript) and isinstance(n.value, ast.Name) and n.value.id == buf and isinstance(n.slice, ast.Name) and n.slice.id == pos]
+        if len(reads) == 1 and len(direct_reads) == 1 and len(incs) == 1 and len(incs_all) == 1 and ret_ok:
+            ctx.proved(rule, "decode_varint:position", mod.loc(dv), f"one {buf}[{pos}] read and one {pos} += 1 per iteration; returns {pos}")
+        else:
+            ctx.inconclusive(rule, "decode_varint:position", f"scan not of the form `b = {buf}[{pos}]; {pos} += 1` once per iteration with `return value, {pos}`", mod.loc(dv))
+    # (d) raw covers the value
+    first = lv.args.args[1].arg if len(lv.args.args) > 1 else None
+    paths = Interp(mod, fork_ifexp=True).run(lv)
+    ctx.count(len(paths))
+    missing = None
+    n_ret = 0
+    for p in paths:
+        if p.outcome != "return" or p.value is None or p.value[0] != "tuple" or len(p.value[1]) != 2:
+            continue
+        n_ret += 1
+        val, raw = p.value[1]
+
+        def sources(t: Sym):
+            out = set()
+            for x in walk(t):
+                if first and x == N(first):
+                    out.add("first")
+                if x[0] == "call" and dotted(x[1]).split(".")[-1] in ("read", "_read_exact", "read1"):
+                    out.add("read")
+            return out
+
+        sv, sr = sources(val), sources(raw)
+        # a truthiness decision on `first` that sends its byte into the value counts as a use of first
+        if first and any(k == N(first) and v for k, v in p.valuation.items()) and any(x[0] == "sub" and x[1] == N(first) for x in walk(val)):
+            sv.add("first")
+        if not sv <= sr:
+            missing = missing or (sorted(sv - sr), show(raw))
+    if not n_ret:
+        ctx.inconclusive(rule, "load_varint:raw-covers-value", "no path returning (value, raw)", mod.loc(lv))
+    elif missing:
+        ctx.refuted(rule, "load_varint:raw-covers-value", f"missing={missing[0]}", mod.loc(lv),
+                    f"on some path the value is built from bytes of {missing[0]} that are not part of the returned raw bytes ({missing[1][:80]}): the raw form of a field whose tag needs "
+                    "several bytes loses its first byte, so unknown fields numbered 16 and above are re-emitted with a corrupt tag", "an unknown field number >= 16")
+    else:
+        ctx.proved(rule, "load_varint:raw-covers-value", mod.loc(lv), f"{n_ret} returning paths")
+
+
 def _is_read(st: ast.AST) -> bool:
     for n in own_nodes(st):
         if isinstance(n, ast.Call) and isinstance(n.func, ast.Attribute) and n.func.attr == "read":
@@ -527,6 +678,9 @@ def rule_N3(ctx) -> None:
                         f"the byte read at line {r['line']} is used without an emptiness test: {r['why']}", "decode_varint(b'\\x80', 0)")
     # decode_varint: returns (value, pos + len(raw))
     dv = mod.func("decode_varint")
+    if any(isinstance(n, (ast.For, ast.While)) for n in ast.walk(dv)) and not any(isinstance(c, ast.Call) and ast.unparse(c.func) == "load_varint" for c in ast.walk(dv)):
+        rule_N7(ctx, "N3")      # a decode_varint that scans the buffer itself is judged as a reader of its own
+        return
     paths = Interp(mod).run(dv)
     ctx.count(len(paths))
     good = False
